@@ -160,6 +160,10 @@ func (m *Thread) Run() {
 			core.LogInfo(m, "Control command name ", interest.Name(), " has unexpected prefix - DROP")
 			continue
 		}
+		if !m.localPrefix.IsPrefix(interest.NameV) && !enableLocalhopManagement {
+			core.LogInfo(m, "Control command name ", interest.Name(), " uses the localhop prefix, which is disabled - DROP")
+			continue
+		}
 
 		core.LogTrace(m, "Received management Interest ", interest.Name())
 
